@@ -45,6 +45,33 @@ SYSTEM_SPECS = [
 ]
 
 CONVS = ("plain", "with_value")
+# mixed conventions (C18): "mixed_top" = only the highest-order derivative callback of each chain
+# (mhp_constr, mtp_neg_log_dens, vjp_metric_func) returns the lower-order values as well, every
+# other callback is plain; "mixed_mid" = only the Hessian does.
+CONVS_MIXED = ("mixed_top", "mixed_mid")
+
+
+def callback_conv(conv, name):
+    """Return convention of one user callback under a world convention."""
+    if conv in ("plain", "with_value"):
+        return conv
+    if conv == "mixed_top":
+        return "with_value" if name in ("mhp_constr", "mtp_neg_log_dens",
+                                        "vjp_metric_func") else "plain"
+    if conv == "mixed_mid":
+        return "with_value" if name == "hess_neg_log_dens" else "plain"
+    raise KeyError(conv)
+
+
+# values a callback returns in addition to its own under the "with_value" convention
+AUX_RETURNS = {
+    "grad_neg_log_dens": ["neg_log_dens"],
+    "jacob_constr": ["constr"],
+    "mhp_constr": ["jacob_constr", "constr"],
+    "vjp_metric_func": ["metric_func"],
+    "hess_neg_log_dens": ["grad_neg_log_dens", "neg_log_dens"],
+    "mtp_neg_log_dens": ["hess_neg_log_dens", "grad_neg_log_dens", "neg_log_dens"],
+}
 
 BASE_METHODS = ["neg_log_dens", "grad_neg_log_dens", "h1", "h2", "h", "dh1_dpos", "dh2_dpos",
                 "dh2_dmom", "dh_dpos", "dh_dmom"]
@@ -112,18 +139,19 @@ def build_system(spec_cfg, conv, d, variant=0, counter=None):
     counter = counter or Counter()
     W = counter.wrap
     fam = cfg["family"]
+    cc = lambda name: callback_conv(conv, name)  # noqa: E731
     nld = W("neg_log_dens", t.f)
-    grad = W("grad_neg_log_dens", t.grad_fn(conv))
+    grad = W("grad_neg_log_dens", t.grad_fn(cc("grad_neg_log_dens")))
     if fam == "riemannian":
         famobj = zoo.RiemannFamily(cfg["kind"], d, t, 1.0 + 0.5 * variant)
         kind = cfg["kind"]
         if kind == "softabs":
             system = S.SoftAbsRiemannianMetricSystem(
-                nld, grad_neg_log_dens=grad, hess_neg_log_dens=W("hess", t.hess_fn(conv)),
-                mtp_neg_log_dens=W("mtp", t.mtp_fn(conv)), softabs_coeff=1.0 + 0.5 * variant)
+                nld, grad_neg_log_dens=grad, hess_neg_log_dens=W("hess", t.hess_fn(cc("hess_neg_log_dens"))),
+                mtp_neg_log_dens=W("mtp", t.mtp_fn(cc("mtp_neg_log_dens"))), softabs_coeff=1.0 + 0.5 * variant)
         else:
             mf = W("metric_func", famobj.metric_fn())
-            vjp = W("vjp_metric_func", famobj.vjp_fn(conv))
+            vjp = W("vjp_metric_func", famobj.vjp_fn(cc("vjp_metric_func")))
             cls, kw = {
                 "scalar": (S.ScalarRiemannianMetricSystem, "vjp_metric_scalar_func"),
                 "diagonal": (S.DiagonalRiemannianMetricSystem, "vjp_metric_diagonal_func"),
@@ -138,8 +166,8 @@ def build_system(spec_cfg, conv, d, variant=0, counter=None):
         cls = S.EuclideanMetricSystem if fam == "euclidean" else S.GaussianEuclideanMetricSystem
         return cls(nld, metric=metric, grad_neg_log_dens=grad), counter
     con = zoo.Constraint(cfg["constraint"], d, variant)
-    jconv = conv
-    mconv = "full" if conv == "with_value" else "plain"
+    jconv = cc("jacob_constr")
+    mconv = "full" if cc("mhp_constr") == "with_value" else "plain"
     constr = W("constr", con.c)
     jac = W("jacob_constr", con.jac_fn(jconv))
     mhp = W("mhp_constr", con.mhp_fn(mconv))
@@ -169,8 +197,41 @@ class World:
         self.states = {"s0": cls(pos=VALS[d]["pos"][0].copy(), mom=VALS[d]["mom"][0].copy(),
                                  dir=1)}
         self.failed = None
+        # reference model (C18): per state, the pos-dependent methods whose value has been
+        # requested (or returned by a derivative callback) since `pos` was last assigned; copies
+        # inherit it.  An under-approximation of what must be cached (internal calls made by
+        # composite methods and flows are not tracked; pickled copies start empty).
+        self.valid = {"s0": set()}
+
+    def _model(self, op):
+        kind = op[0]
+        V = self.valid
+        if kind == "set":
+            if op[2] == "pos":
+                V[op[1]] = set()
+        elif kind == "copy":
+            V[op[2]] = set(V[op[1]])
+        elif kind == "pickle":
+            V[op[2]] = set()
+        elif kind == "flow":
+            if op[2] == "h2":
+                V[op[1]] = set()
+        elif kind == "call" and op[2] == "A":
+            m = op[3]
+            if m in DEPENDS:
+                V[op[1]].add(m)
+                if m in AUX_RETURNS and callback_conv(self.conv, m) == "with_value":
+                    aux = list(AUX_RETURNS[m])
+                    if m == "vjp_metric_func" and self.spec_name == "softabs_riemannian":
+                        aux = []
+                    V[op[1]].update(a for a in aux if a in self.methods)
 
     def apply(self, op):
+        out = self._apply(op)
+        self._model(op)
+        return out
+
+    def _apply(self, op):
         kind = op[0]
         S = self.states
         if kind == "set":
